@@ -322,7 +322,10 @@ def _check_pages(case):
     source: one per definition, overloads each with their own, names spelled as written whether or not their target is documented"""
     import ast, html as _html
     from replay import site
-    files = {'sg/__init__.py': PAGE_MODULE, 'sg/_impl.py': PAGE_IMPL}
+    # a module that gets `overload` (and List) through a star import of a module that merely imports them
+    via_star = ('from sg._compat import *\n@overload\ndef h2(a: int) -> int: ...\n@overload\ndef h2(a: str, b: List[int] = ()) -> str: ...\ndef h2(a, b=()):\n    "doc"\n'
+                'class V:\n    "doc"\n    @overload\n    def m(self, a: int) -> int: ...\n    @overload\n    def m(self, a: str) -> str: ...\n    def m(self, a):\n        "doc"\n')
+    files = {'sg/__init__.py': PAGE_MODULE, 'sg/_impl.py': PAGE_IMPL, 'sg/_compat.py': 'from typing import overload, List\n', 'sg/viastar.py': via_star}
     rc, out, d = site.run_project(files, case['argv'])
     try:
         if rc not in (0, 2, 3):
@@ -334,8 +337,13 @@ def _check_pages(case):
                 if isinstance(st, (ast.FunctionDef, ast.AsyncFunctionDef)):
                     written.setdefault(f'{scope}.{st.name}', []).append(st)
         fails = []
+        vtree = ast.parse(via_star)
+        for scope, body in (('sg.viastar', vtree.body), ('sg.viastar.V', next(n for n in vtree.body if isinstance(n, ast.ClassDef)).body)):
+            for st in body:
+                if isinstance(st, (ast.FunctionDef, ast.AsyncFunctionDef)):
+                    written.setdefault(f'{scope}.{st.name}', []).append(st)
         for qual, defs in written.items():
-            page = 'index.html' if qual.count('.') == 1 else 'sg.K.html'
+            page = {'sg': 'index.html', 'sg.K': 'sg.K.html', 'sg.viastar': 'sg.viastar.html', 'sg.viastar.V': 'sg.viastar.V.html'}[qual.rsplit('.', 1)[0]]
             text = open(os.path.join(d, 'out', page), encoding='utf-8').read()
             m = re.search(r'<a name="%s">.*?<div class="functionHeader">(.*?)<a class="headerLink"' % re.escape(qual), text, re.S)
             if not m:
